@@ -6,6 +6,16 @@ open CfVerif
 theorem gen_i2cInit : Gen.C14.i2cUpdateInit.contains "self._update_finished_cb = update_finished_cb" = true ∧
     Gen.C14.i2cUpdateInit.contains "self.valid = False" = true := by decide
 
+/-- on each of the three paths that end an update the callback fires and the pending record is cleared -/
+theorem i2c_cb_done (s : I2CObj) (h : s.pending = true) : s.callback i2cPathDone = ({ s with pending := false }, [.done]) := by
+  unfold I2CObj.callback; rw [if_pos h, gen_i2c_paths.2.2.2.2.1, gen_i2c_paths.2.2.2.2.2]; rfl
+theorem i2c_cb_bad (s : I2CObj) (h : s.pending = true) : s.callback i2cPathBadToken = ({ s with pending := false }, [.done]) := by
+  unfold I2CObj.callback; rw [if_pos h, gen_i2c_paths.2.2.1, gen_i2c_paths.2.2.2.1]; rfl
+theorem i2c_cb_unk (s : I2CObj) (h : s.pending = true) : s.callback i2cPathUnknown = ({ s with pending := false }, [.done]) := by
+  unfold I2CObj.callback; rw [if_pos h, gen_i2c_paths.1, gen_i2c_paths.2.1]; rfl
+
+theorem gen_i2c_unk_mem : i2cPathUnknown ∈ Gen.C14.i2cCbCalls := List.contains_iff_mem.mp gen_i2c_paths.1
+
 /-- the object right after `update()` on a non-pending object -/
 theorem i2cStep_update (s : I2CObj) (hs : s.pending = false) :
     i2cStep s .update = .ok ({ s with pending := true, valid := false }, [.read 0 16]) := by
@@ -61,7 +71,7 @@ def i2cAfter (s : I2CObj) (d0 d1 : List UInt8) : Except PyErr (I2CObj × Bool) :
           .ok ({ fields := some (v, ch, sp, p, r), address := some (Gen.C14.i2cAddrJoin up.toNat lo.toNat : Nat),
                  valid := (i2cFinish (d0 ++ d1) (v, ch, sp, p, r) none).valid, pending := false, datav0 := some d0 }, true)
         | .ok _ => .error .valueError
-      else .ok ({ s with fields := some (v, ch, sp, p, r), valid := false, pending := true }, false)
+      else .ok ({ s with fields := some (v, ch, sp, p, r), valid := false, pending := false }, true)
     | .ok _ => .error .valueError
   else .ok ({ s with valid := false, pending := false }, true)
 
@@ -81,8 +91,8 @@ theorem i2cRunUpdate_eq (s : I2CObj) (hs : s.pending = false) (m0 m1 : Mem) :
       obtain ⟨v, ch, sp, p, r, rfl⟩ := unpack_hdr_shape hu
       simp only
       by_cases h0 : v = 0
-      · simp only [h0, if_true, I2CObj.callback]
-        cases hv : (i2cFinish (m0.read 0 16) (0, ch, sp, p, r) none).valid <;> simp [i2cServe]
+      · simp only [h0, if_true]
+        cases hv : (i2cFinish (m0.read 0 16) (0, ch, sp, p, r) none).valid <;> simp [i2cServe, i2c_cb_done]
       · simp only [h0, if_false]
         by_cases h1 : v = 1
         · simp only [h1, if_true, gen_i2cRead2, List.getD_cons_zero, List.getD_cons_succ, List.nil_append, i2cServe, i2cStep]
@@ -93,11 +103,11 @@ theorem i2cRunUpdate_eq (s : I2CObj) (hs : s.pending = false) (m0 m1 : Mem) :
           | ok vals2 =>
             rw [fmt_i2cAddr] at hu2
             obtain ⟨up, lo, rfl⟩ := unpack_BI_shape hu2
-            simp only [I2CObj.callback, i2cFinish]
+            simp only [i2cFinish]
             cases hv : (checksum256 (List.take ((m0.read 0 16 ++ m1.read 16 5).length - 1) (m0.read 0 16 ++ m1.read 16 5)) ==
-              ((m0.read 0 16 ++ m1.read 16 5).getD ((m0.read 0 16 ++ m1.read 16 5).length - 1) 0).toNat) <;> simp [i2cServe]
-        · simp [h1, i2cServe]
-  · simp [ht, I2CObj.callback, i2cServe]
+              ((m0.read 0 16 ++ m1.read 16 5).getD ((m0.read 0 16 ++ m1.read 16 5).length - 1) 0).toNat) <;> simp [i2cServe, i2c_cb_done]
+        · simp [h1, i2cServe, gen_i2c_unk_mem, i2c_cb_unk]
+  · simp [ht, i2cServe, i2c_cb_bad]
 
 theorem i2cAfter_report (s s' : I2CObj) (d0 d1 : List UInt8) :
     (i2cAfter s d0 d1).map I2CObj.report = (i2cAfter s' d0 d1).map I2CObj.report := by
@@ -145,11 +155,23 @@ theorem i2cAfter_fresh (m : Mem) :
             rw [fmt_i2cAddr] at hu2
             obtain ⟨up, lo, rfl⟩ := unpack_BI_shape hu2
             simp [Except.map, I2CObj.parsed, i2cFinish]
-        · simp [h1, Except.map, I2CObj.parsed, I2CObj.fresh]
+        · simp [h1, Except.map, I2CObj.parsed, I2CObj.fresh, gen_i2c_unk_mem]
   · simp [ht, Except.map, I2CObj.parsed, I2CObj.fresh]
 theorem gen_owInit : Gen.C14.owUpdateInit.contains "self._update_finished_cb = update_finished_cb" = true ∧
     Gen.C14.owUpdateInit.contains "self.valid = False" = true ∧
     Gen.C14.owUpdateInit.contains "self.elements = {}" = true := by decide
+
+set_option maxRecDepth 16384 in
+theorem gen_ow_paths : Gen.C14.owCbCalls.contains owPathShortcut = true ∧ Gen.C14.owCbClears.contains owPathShortcut = true ∧
+    Gen.C14.owCbCalls.contains owPathBadHeader = true ∧ Gen.C14.owCbClears.contains owPathBadHeader = true ∧
+    Gen.C14.owCbCalls.contains owPathSection = true ∧ Gen.C14.owCbClears.contains owPathSection = true := by decide
+
+theorem ow_cb_shortcut (s : OWObj) (h : s.pending = true) : s.callback owPathShortcut = ({ s with pending := false }, [.done]) := by
+  unfold OWObj.callback; rw [if_pos h, gen_ow_paths.1, gen_ow_paths.2.1]; rfl
+theorem ow_cb_bad (s : OWObj) (h : s.pending = true) : s.callback owPathBadHeader = ({ s with pending := false }, [.done]) := by
+  unfold OWObj.callback; rw [if_pos h, gen_ow_paths.2.2.1, gen_ow_paths.2.2.2.1]; rfl
+theorem ow_cb_section (s : OWObj) (h : s.pending = true) : s.callback owPathSection = ({ s with pending := false }, [.done]) := by
+  unfold OWObj.callback; rw [if_pos h, gen_ow_paths.2.2.2.2.1, gen_ow_paths.2.2.2.2.2]; rfl
 
 theorem owStep_update (s : OWObj) (hs : s.pending = false) :
     owStep s .update = .ok ({ s with pending := true, valid := false, elements := [] }, [.read 0 11]) := by
@@ -212,8 +234,8 @@ theorem owStage2_stateful (m : Mem) (pins vid pid : Nat) (len : Nat) :
   | error e => rfl
   | ok o =>
     cases o with
-    | none => simp [OWObj.callback, owServe, Except.map, OWObj.parsed]
-    | some d => simp [OWObj.callback, owServe, Except.map, OWObj.parsed]
+    | none => simp [ow_cb_section, owServe, Except.map, OWObj.parsed]
+    | some d => simp [ow_cb_section, owServe, Except.map, OWObj.parsed]
 
 theorem owRunUpdate_fresh (m : Mem) : (owRunUpdate OWObj.fresh m m).map OWObj.parsed = owUpdate m := by
   unfold owRunUpdate owUpdate
@@ -225,7 +247,7 @@ theorem owRunUpdate_fresh (m : Mem) : (owRunUpdate OWObj.fresh m m).map OWObj.pa
   | ok r =>
     obtain ⟨pins, vid, pid, ok⟩ := r
     cases ok with
-    | false => simp [OWObj.callback, owServe, Except.map, OWObj.parsed]
+    | false => simp [ow_cb_bad, owServe, Except.map, OWObj.parsed]
     | true =>
       simp only [if_true]
       cases hu : unpack (parseFmt! Gen.C14.owLenFmt) (slice (m.read 0 11) 8 10) with
@@ -242,7 +264,7 @@ theorem owRunUpdate_fresh (m : Mem) : (owRunUpdate OWObj.fresh m m).map OWObj.pa
           | error e => rfl
           | ok o =>
             cases o with
-            | some d => simp [owServe, Except.map, OWObj.parsed]
+            | some d => simp [ow_cb_shortcut, owServe, Except.map, OWObj.parsed]
             | none =>
               simp only [List.nil_append, owServe]
               rw [hb] at hst
@@ -305,4 +327,84 @@ theorem i2c_reupdate_aux (s : I2CObj) (hs : s.pending = false) (m : Mem) (hm : 2
 theorem ow_reupdate_aux (s : OWObj) (hs : s.pending = false) (m : Mem) :
     (owRunUpdate s m m).map OWObj.parsed = owUpdate m := by
   rw [ow_update_history_free_aux s hs, owRunUpdate_fresh]
+theorem i2cAfter_ok_completes (s : I2CObj) (d0 d1 : List UInt8) (s' : I2CObj) (c : Bool)
+    (h : i2cAfter s d0 d1 = .ok (s', c)) : c = true ∧ s'.pending = false := by
+  unfold i2cAfter at h
+  by_cases ht : slice d0 0 4 = eepromToken
+  · simp only [ht, if_true] at h
+    cases hu : unpack (parseFmt! Gen.C14.i2cHdrFmt) (slice d0 4 15) with
+    | error e => rw [hu] at h; cases h
+    | ok vals =>
+      rw [hu] at h
+      rw [fmt_i2cHdr] at hu
+      obtain ⟨v, ch, sp, p, r, rfl⟩ := unpack_hdr_shape hu
+      simp only at h
+      by_cases h0 : v = 0
+      · simp only [h0, if_true] at h; cases h; exact ⟨rfl, rfl⟩
+      · simp only [h0, if_false] at h
+        by_cases h1 : v = 1
+        · simp only [h1, if_true] at h
+          cases hu2 : unpack (parseFmt! Gen.C14.i2cAddrFmt) (slice d0 15 16 ++ slice d1 0 4) with
+          | error e => rw [hu2] at h; cases h
+          | ok vals2 =>
+            rw [hu2] at h
+            rw [fmt_i2cAddr] at hu2
+            obtain ⟨up, lo, rfl⟩ := unpack_BI_shape hu2
+            simp only at h; cases h; exact ⟨rfl, rfl⟩
+        · simp only [h1, if_false] at h; cases h; exact ⟨rfl, rfl⟩
+  · simp only [ht, if_false] at h; cases h; exact ⟨rfl, rfl⟩
+
+theorem ow_fresh_ok_completes (m0 m1 : Mem) (s' : OWObj) (c : Bool)
+    (h : owRunUpdate OWObj.fresh m0 m1 = .ok (s', c)) : c = true ∧ s'.pending = false := by
+  unfold owRunUpdate at h
+  rw [owStep_update OWObj.fresh rfl] at h
+  simp only [owServe, OWObj.fresh] at h
+  simp only [owStep, if_true] at h
+  cases hh : owHeader (slice (m0.read 0 11) 0 8) with
+  | error e => rw [hh] at h; cases h
+  | ok r =>
+    rw [hh] at h
+    obtain ⟨pins, vid, pid, ok⟩ := r
+    cases ok with
+    | false =>
+      simp [ow_cb_bad, owServe] at h
+      obtain ⟨rfl, rfl⟩ := h; exact ⟨rfl, rfl⟩
+    | true =>
+      simp only [if_true] at h
+      cases hu : unpack (parseFmt! Gen.C14.owLenFmt) (slice (m0.read 0 11) 8 10) with
+      | error e => rw [hu] at h; cases h
+      | ok vals =>
+        rw [hu] at h
+        rw [fmt_owLen] at hu
+        obtain ⟨a, b, rfl⟩ := unpack_BB_shape hu
+        simp only at h
+        have h80 : ¬ ((8 : Nat) = 0) := by decide
+        have stage2 : ∀ (sx : OWObj) (cx : Bool),
+            (match owStep ⟨some pins, some vid, some pid, [], false, true⟩ (.newData Gen.C14.owRead2Addr (m1.read Gen.C14.owRead2Addr (Gen.C14.owRead2Len b.toNat))) with
+              | .error e => (Except.error e : Except PyErr (OWObj × Bool))
+              | .ok (s2, outs) => owServe 2 s2 outs [] false) = .ok (sx, cx) → cx = true ∧ sx.pending = false := by
+          intro sx cx hx
+          rw [gen_owRead2.1] at hx
+          simp only [owStep, h80, if_false, if_true] at hx
+          cases he : owElements (m1.read 8 (Gen.C14.owRead2Len b.toNat)) [] with
+          | error e => rw [he] at hx; cases hx
+          | ok o =>
+            rw [he] at hx
+            cases o with
+            | none => simp [ow_cb_section, owServe] at hx; obtain ⟨rfl, rfl⟩ := hx; exact ⟨rfl, rfl⟩
+            | some d => simp [ow_cb_section, owServe] at hx; obtain ⟨rfl, rfl⟩ := hx; exact ⟨rfl, rfl⟩
+        by_cases hb : b = 0
+        · simp only [hb, if_true] at h
+          cases he : owElements (slice (m0.read 0 11) 8 11) [] with
+          | error e => rw [he] at h; cases h
+          | ok o =>
+            rw [he] at h
+            cases o with
+            | some d => simp [ow_cb_shortcut, owServe] at h; obtain ⟨rfl, rfl⟩ := h; exact ⟨rfl, rfl⟩
+            | none =>
+              simp only [List.nil_append, owServe] at h
+              rw [hb] at stage2
+              exact stage2 s' c h
+        · simp only [hb, if_false, List.nil_append, owServe] at h
+          exact stage2 s' c h
 end CfVerif.C14
